@@ -72,9 +72,11 @@ def sig_of(op):
     return {"cmd": "create", "mode": "sf" if o.get("sf") else ("n" if o.get("n") else "folder")}
 
 
-def run_case(ctx, pre, op, now):
+def run_case(ctx, pre, op, now, tz=None):
     """execute one transition; returns (res, post, violations)"""
     case = {"pre": pre, "op": op, "now": now}
+    if tz:
+        case["tz"] = tz
     if op[0] == "flatten":
         dest = ctx.fresh("dest")
         v = []
@@ -82,7 +84,7 @@ def run_case(ctx, pre, op, now):
         res = None
         for i in range(op[1].get("times", 1)):
             name, args = ops.to_args(op)
-            res = ctx.run(name, ops.expand_args(args, ctx.root, dest=dest), now=now + i)
+            res = ctx.run(name, ops.expand_args(args, ctx.root, dest=dest), now=now + i, tz=tz)
             files = sorted(sub.readback(dest).items())
             v += check_files(files, f"{ops.label(op)} (run {i + 1})", dict(sig_of(op), run=i + 1), case)
             if res.exc:
@@ -92,14 +94,14 @@ def run_case(ctx, pre, op, now):
             v += check_files([(p, c) for p, c in post.items() if pre.get(p, 0) != c], ops.label(op), sig_of(op), case)
         sub.rm(dest)
         return res, post, v
-    res, post = ops.run_cmd(ctx, pre, op, now)
+    res, post = ops.run_cmd(ctx, pre, op, now, tz=tz)
     changed = [(p, c) for p, c in sorted(post.items()) if pre.get(p, 0) != c]
     v = check_files(changed, f"{ops.label(op)} (exit {res.exit})", sig_of(op), case)
     return res, post, v
 
 
 def eval_case(ctx, case):
-    return run_case(ctx, case["pre"], case["op"], case["now"])[2]
+    return run_case(ctx, case["pre"], case["op"], case["now"], case.get("tz"))[2]
 
 
 def enabled(tree, meta):
@@ -162,7 +164,7 @@ def expand(ctx, item):
             out.append((op, ops.edit(tree, op), m2, [], "edit:" + op[0]))
             continue
         now = sub.NOW0 + 10 * depth
-        res, post, v = run_case(ctx, tree, op, now)
+        res, post, v = run_case(ctx, tree, op, now, meta.get("tz"))
         n_files = len([p for p in post if kind_of(p) and post[p] != tree.get(p, 0)])
         out.append((op, post if cont else None, m2, v, (op[0], res.exit if res else None, "invalid" if v else "valid")))
     return out
@@ -175,6 +177,8 @@ def main(tier, seed):
         plans = [dict(max_cmds=2, max_edits=1, creator=True)]
     else:
         plans = [dict(max_cmds=3, max_edits=1, creator=True)]
+    # the dates are xsd:dateTime values in every zone: west of Greenwich with a half-hour offset, and UTC+14
+    plans += [dict(max_cmds=2, max_edits=0, creator=False, tz=z) for z in ("America/St_Johns", "Pacific/Kiritimati")]
     tot = {"states": 0, "transitions": 0}
     runs = []
     for pl in plans:
@@ -191,7 +195,8 @@ def main(tier, seed):
                    "folders incl. files inside nested histories so that parents receive only references, create at every "
                    "sub-directory) interleaved with delete/alter/rename/add edits (exit 0/10/11) and flatten (first, repeated, "
                    "with creator options, -n); every *.mhl written is validated against xsd/ASCMHL.xsd and every chain / "
-                   "collection file against xsd/ASCMHLDirectory__combined.xsd with lxml"}
+                   "collection file against xsd/ASCMHLDirectory__combined.xsd with lxml; a reduced matrix again in the zones "
+                   "America/St_Johns (UTC-3:30/-2:30) and Pacific/Kiritimati (UTC+14)"}
     eng.assumptions.append("the XSD files shipped in /repo/xsd are the specification; lxml/libxml2 XMLSchema is the validator")
     return eng.finish(cov, eval_case)
 
